@@ -53,6 +53,8 @@ class Batch:
         """check(model_result) -> None if it agrees, else (model_value, impl_value)"""
         self.reqs.append(req)
         self.pend.append((pair, case, check))
+        if len(self.reqs) >= 2000:          # keep every driver call short (the interpreter handles ~30 requests / s on the heavy ops)
+            self.flush()
 
     def flush(self):
         if not self.reqs:
@@ -376,6 +378,79 @@ def corr_gauss_multi(ctx, B):
               "Measure.gaussPostSelect vs GaussianModes.measure_dyne (several modes)", case, chk)
 
 
+def corr_gauss_discrete(ctx, B):
+    """GaussianBackend.measure_fock / measure_threshold: the (mean, cov) handed to the thewalrus samplers vs
+    Measure.gaussDiscreteArgs, on dyadic states, registers with deleted modes (rows kept in the arrays) and modes added
+    later, measured modes in any order"""
+    import strawberryfields.backends.gaussianbackend.backend as gb
+    from strawberryfields.backends.gaussianbackend import GaussianBackend
+    rng = ctx.rng
+    for it in range(ctx.n(40, 400)):
+        n = rng.randint(2, 5)
+        N, M, mean = m6.rand_nm_state(rng, n)
+        if it % 4 == 0:
+            mean = mean * 0                       # measure_fock passes no mean for zero-mean states
+        be = GaussianBackend()
+        be.begin_circuit(n)
+        be.circuit.nmat, be.circuit.mmat, be.circuit.mean = N.copy(), M.copy(), mean.copy()
+        deleted = []
+        if it % 3 != 0:
+            deleted = rng.sample(range(n), 1 if n < 4 or rng.random() < 0.6 else 2)
+            be.del_mode(list(deleted))
+            if rng.random() < 0.4:
+                be.add_mode(1)                    # a late mode: index n
+                k0 = be.circuit.nlen - 1
+                be.circuit.nmat[k0, k0] = 0.5
+                be.circuit.mmat[k0, k0] = 0.25
+        nlen = be.circuit.nlen
+        live = [i for i in range(nlen) if be.circuit.active[i] is not None]
+        modes = [live[i] for i in scrambled(rng, len(live), rng.randint(1, min(3, len(live))))]
+        kind = ["fock", "threshold"][it % 2]
+        shots = rng.choice([1, 2])
+        st_req = _gs_req(nlen, be.circuit.nmat, be.circuit.mmat, be.circuit.mean)
+        log = []
+
+        def fake_tor(mu=None, cov=None, samples=1, **kw):
+            log.append((np.array(mu, dtype=float), np.array(cov, dtype=float), samples))
+            return np.zeros((samples, len(mu) // 2), dtype=int)
+
+        def fake_haf(cov, samples=1, mean=None, **kw):
+            log.append((None if mean is None else np.array(mean, dtype=float), np.array(cov, dtype=float), samples))
+            return np.zeros((samples, len(cov) // 2), dtype=int)
+        case = dict(kind="gauss_discrete", which=kind, deleted=deleted, modes=modes, shots=shots, **st_req)
+        ctx.count(f"corr:gauss:discrete:{kind}", case, bool(deleted) or modes != sorted(modes),
+                  sample=dict(which=kind, n=nlen, deleted=deleted, modes=modes))
+        ctx.tally("corr:gauss:discrete:holes" if deleted else "corr:gauss:discrete:contiguous")
+        old_f = gb.torontonian_sample_state, gb.hafnian_sample_state
+        gb.torontonian_sample_state, gb.hafnian_sample_state = fake_tor, fake_haf
+        try:
+            import warnings
+            with warnings.catch_warnings():
+                warnings.simplefilter("ignore")
+                (be.measure_fock if kind == "fock" else be.measure_threshold)(list(modes), shots=shots)
+        except Exception as e:  # noqa: BLE001
+            ctx.corr_cases += 1
+            ctx.disagree("Measure.gaussDiscreteArgs vs GaussianBackend.measure_" + kind, case, "sampler arguments", f"raised {type(e).__name__}: {e}")
+            continue
+        finally:
+            gb.torontonian_sample_state, gb.hafnian_sample_state = old_f
+
+        def chk(r, log=log, shots=shots):
+            if len(log) != 1 or log[0][2] != shots:
+                return ("one sampler call with samples=shots", [(x[2]) for x in log])
+            mm, mc = m6.unrvec(r["mean"]), m6.unrmat(r["cov"])
+            mu, cov, _ = log[0]
+            if mu is None:
+                mu = np.zeros(len(mm))
+                if np.max(np.abs(mm)) > 1e-12:
+                    return (mm.tolist(), "no mean passed")
+            if not m6.close(mu, mm, 1e-12) or not m6.close(cov, mc, 1e-12):
+                return (dict(mean=mm.tolist(), cov=mc.tolist()), dict(mean=mu.tolist(), cov=cov.tolist()))
+            return None
+        B.add(dict(op="meas.gaussDiscrete", modes=modes, **st_req),
+              "Measure.gaussDiscreteArgs vs GaussianBackend.measure_" + kind + " (arguments of the thewalrus sampler)", case, chk)
+
+
 def _weights_from_model(comps, w0):
     """re-weighting with NumPy's exp/det on the model's quadratic forms and C + sigma"""
     rw = []
@@ -674,7 +749,7 @@ def corr_sampler(ctx, B):
             w0[j] = -w0[j] / 2            # a negative-weight peak (cat / Fock-like states)
         w0 = w0 / w0.sum()
         mode = rng.randrange(n)
-        covmat = m6.rand_cov(rng, 2) if it % 2 else np.eye(2)
+        covmat = m6.phys_cov(rng, 2) if it % 2 else np.eye(2)
         ix = [2 * mode, 2 * mode + 1]
         offs = [np.array([m6.dy(rng, -8, 8, 4), m6.dy(rng, -8, 8, 4)]) for _ in range(4)]
         us = [rng.choice([0.995, 0.9, 0.5]), rng.choice([0.95, 0.45]), 0.0]
@@ -1149,7 +1224,10 @@ def oracle_sample_case(ctx, sf, case):
     if samples.shape != (1, 1) or abs(samples[0, 0] - want_val) > 1e-9 * max(1, abs(want_val)):
         ctx.fail(f"dyne-returned:{kind}:{backend}", f"{backend}: drawn phase-space point {vm.tolist()} (hbar=2 units) reported as "
                  f"{samples.tolist()} instead of {want_val} (hbar={hbar})", rp)
-    d = sim.moment_dist(got, refc.alpha_N_M())
+    want = refc.alpha_N_M()
+    if hasattr(ref, "active") and ref.active != list(range(ref.n)):
+        want = sim.restrict_moments(want, ref.active)
+    d = sim.moment_dist(got, want)
     if d > 2e-6:
         ctx.fail(f"dyne-conditional-sampled:{kind}:{backend}", f"{backend}: state after Measure{kind.capitalize()} on mode {m} of {n} "
                  f"with drawn outcome {vm.tolist()} differs from the conditional state of that outcome by {d:.3g}", rp)
@@ -1363,6 +1441,8 @@ def oracle_threshold_case(ctx, sf, case):
                  f"expected {exp}", rp)
     # conditional state of the remaining modes: mixture over inclusion-exclusion terms of heterodyne-0 conditioned states
     want = _threshold_conditional(ref, done)
+    if hasattr(ref, "active") and ref.active != list(range(ref.n)):
+        want = sim.restrict_moments(want, ref.active)
     d = sim.moment_dist(got, want)
     if d > 1e-6:
         ctx.fail("threshold-conditional:bosonic", f"bosonic MeasureThreshold | {regs} of {n} with outcomes {done}: state afterwards differs "
@@ -1394,8 +1474,36 @@ def _threshold_conditional(ref, done):
     return out.alpha_N_M()
 
 
-def gen_threshold_case(rng, backend):
+def holes_prefix(rng, n, mixed=True, scale=1.0):
+    """correlated prefix on n modes, then a deletion (mostly of a low mode) and possibly a late mode coupled to a live one;
+    returns (ops, live modes)"""
+    ops_ = _prefix(rng, n, mixed=mixed, scale=scale)
+    d = rng.randrange(n - 1) if rng.random() < 0.7 else rng.randrange(n)
+    ops_.append(dict(cls="Del", regs=[d], pars=[]))
+    alive = [i for i in range(n) if i != d]
+    if rng.random() < 0.5:
+        ops_.append(dict(cls="New", regs=[n], pars=[]))
+        ops_.append(dict(cls="Sgate", regs=[n], pars=[round(rng.uniform(0.1, 0.3), 3), sim.angle(rng)]))
+        a = rng.choice(alive)
+        ops_.append(dict(cls="BSgate", regs=rng.choice([[n, a], [a, n]]), pars=[round(rng.uniform(0.4, 1.1), 3), sim.angle(rng)]))
+        alive.append(n)
+    return ops_, alive
+
+
+def gen_threshold_case(rng, backend, holes=False):
     n = rng.randint(2, 4)
+    if holes:
+        n = rng.randint(3, 4)
+        prefix, alive = holes_prefix(rng, n)
+        k = rng.randint(1, min(len(alive), 3)) if rng.random() < 0.3 else rng.randint(2, min(len(alive), 3))
+        regs = [alive[i] for i in scrambled(rng, len(alive), k)]
+        case = dict(n=n, regs=regs, backend=backend, hbar=rng.choice([2.0, 2.0, 1.0]), prefix=prefix, holes=True)
+        if backend == "bosonic":
+            case["pattern"] = [rng.randint(0, 1) for _ in regs]
+        else:
+            case["cls"] = rng.choice(["MeasureThreshold", "MeasureFock"])
+            case["shots"] = rng.choice([1, 3])
+        return case
     k = rng.randint(1, min(n, 3)) if rng.random() < 0.3 else rng.randint(2, min(n, 3))
     regs = scrambled(rng, n, k)
     case = dict(n=n, regs=regs, backend=backend, hbar=rng.choice([2.0, 2.0, 1.0]), prefix=_prefix(rng, n))
@@ -1723,8 +1831,67 @@ def gen_multi_dyne_case(rng, backend):
     n = rng.randint(3, 4)
     modes = scrambled(rng, n, rng.randint(2, n - 1))
     k = len(modes)
-    return dict(n=n, modes=modes, backend=backend, prefix=_prefix(rng, n), sigma=m6.rand_cov(rng, 2 * k).tolist(),
+    return dict(n=n, modes=modes, backend=backend, prefix=_prefix(rng, n), sigma=m6.phys_cov(rng, 2 * k).tolist(),
                 off=[round(rng.uniform(-0.8, 0.8), 3) for _ in range(2 * k)])
+
+
+def oracle_gauss_certain(ctx, sf, rng, case=None):
+    """Gaussian MeasureFock / MeasureThreshold with the REAL thewalrus samplers, outcomes that are certain under the Born
+    rule only (no statistics): a vacuum mode never yields a photon / a click however bright its neighbours are; the two arms
+    of a two-mode squeezed vacuum always agree.  The register has a hole (a mode deleted before the measurement) and
+    sometimes a late mode; every exception is a failure."""
+    if case is None:
+        n = rng.randint(4, 5)
+        roles = list(range(n))
+        rng.shuffle(roles)
+        d = min(roles[:2]) if rng.random() < 0.7 else roles[0]       # mostly a low index is deleted
+        rest = [m for m in range(n) if m != d]
+        rng.shuffle(rest)
+        v, a, b = rest[0], rest[1], rest[2]
+        bright = rest[3:] if len(rest) > 3 else []
+        ops_ = [dict(cls="S2gate", regs=[a, b], pars=[round(rng.uniform(0.5, 0.9), 3), sim.angle(rng)]),
+                dict(cls="Sgate", regs=[d], pars=[0.6, 0.3])]
+        for m in bright:
+            ops_.append(dict(cls="Sgate", regs=[m], pars=[round(rng.uniform(0.6, 1.0), 3), sim.angle(rng)]))
+        ops_.append(dict(cls="Del", regs=[d], pars=[]))
+        late = rng.random() < 0.4
+        if late:
+            ops_.append(dict(cls="New", regs=[n], pars=[]))
+        regs = [v, a, b] + ([n] if late else [])
+        rng.shuffle(regs)
+        case = dict(n=n, ops=ops_, regs=regs, vac=[v] + ([n] if late else []), pair=[a, b],
+                    cls=rng.choice(["MeasureFock", "MeasureThreshold"]), shots=6, np_seed=rng.randrange(10 ** 6))
+    rp = dict(kind="gausscertain", case=case)
+    ctx.oracle_cases += 1
+    spec = dict(n=case["n"], ops=case["ops"] + [dict(cls=case["cls"], regs=case["regs"], pars=[])])
+    import warnings
+    state = np.random.get_state()
+    np.random.seed(case["np_seed"])
+    try:
+        with warnings.catch_warnings():
+            warnings.simplefilter("ignore")
+            prog, _ = progs.build(spec)
+            res = sf.Engine("gaussian").run(prog, shots=case["shots"])
+    except Exception as e:  # noqa: BLE001
+        ctx.fail("gauss-certain:raises", f"gaussian {case['cls']} | {case['regs']} after Del (program {case['ops']}) raised "
+                 f"{type(e).__name__}: {e}", rp)
+        return
+    finally:
+        np.random.set_state(state)
+    smp = np.asarray(res.samples)
+    cols = sorted(case["regs"])
+    if smp.shape != (case["shots"], len(cols)):
+        ctx.fail("samples-layout:rows-columns", f"gaussian {case['cls']} | {case['regs']} shots={case['shots']}: samples shape {smp.shape}", rp)
+        return
+    for m in case["vac"]:
+        if np.any(smp[:, cols.index(m)] != 0):
+            ctx.fail("gauss-certain:vacuum", f"gaussian {case['cls']} | {case['regs']} after `Del`: mode {m} is in the vacuum state but the "
+                     f"outcomes are {smp[:, cols.index(m)].tolist()} (Born probability of a photon / click is 0); program {case['ops']}", rp)
+            return
+    a, b = case["pair"]
+    if np.any(smp[:, cols.index(a)] != smp[:, cols.index(b)]):
+        ctx.fail("gauss-certain:tmsv", f"gaussian {case['cls']} | {case['regs']} after `Del`: the arms {a}, {b} of a two-mode squeezed vacuum gave "
+                 f"different outcomes {smp[:, [cols.index(a), cols.index(b)]].tolist()}; program {case['ops']}", rp)
 
 
 ORACLES = dict(dyne=oracle_dyne_case, sample=oracle_sample_case, cat=oracle_cat_case, fock=oracle_fock_case,
@@ -1798,6 +1965,22 @@ def oracle(ctx, sf):
         run_oracle_case(ctx, sf, "fockshared", case)
     for it in range(ctx.n(1, 8)):
         oracle_fock_pdf(ctx, sf, rng)
+    # every (back end, measurement) pair on registers with holes and late modes
+    for it in range(ctx.n(16, 160)):
+        case = gen_threshold_case(rng, ["gaussian", "gaussian", "bosonic"][it % 3], holes=True)
+        ctx.count(f"oracle:holes:threshold:{case['backend']}:{case.get('cls', 'MeasureThreshold')}", case, True,
+                  sample=dict(n=case["n"], regs=case["regs"], backend=case["backend"]))
+        run_oracle_case(ctx, sf, "threshold", case)
+    for it in range(ctx.n(8, 80)):
+        backend = ["gaussian", "bosonic"][it % 2]
+        case = gen_holes_case(rng, backend, ["homodyne", "heterodyne"][(it // 2) % 2])
+        case.pop("outcome")
+        case["off"] = [round(rng.uniform(-1.0, 1.0), 3), round(rng.uniform(-1.0, 1.0), 3)]
+        ctx.count(f"oracle:holes:sample:{case['kind']}:{backend}", case, True)
+        run_oracle_case(ctx, sf, "sample", case)
+    for it in range(ctx.n(6, 60)):
+        ctx.count("oracle:gauss-certain", None)
+        oracle_gauss_certain(ctx, sf, rng)
     for it in range(ctx.n(8, 80)):
         case = gen_multi_dyne_case(rng, ["gaussian", "bosonic"][it % 2])
         ctx.count(f"oracle:multi-dyne:{case['backend']}", case, True, sample=dict(n=case["n"], modes=case["modes"]))
@@ -1812,6 +1995,7 @@ def run(ctx, sf):
         corr_chop(ctx, B)
         corr_gauss(ctx, B, sf)
         corr_gauss_multi(ctx, B)
+        corr_gauss_discrete(ctx, B)
         corr_bosonic(ctx, B, sf)
         corr_weights(ctx, B)
         corr_fock(ctx, B)
@@ -1834,6 +2018,8 @@ def _replay_one(ctx, sf, rp):
         oracle_fock_layout(ctx, sf, None, spec=rp["spec"])
     elif kind == "sampler":
         sampler_one(ctx, None, rp["case"])
+    elif kind == "gausscertain":
+        oracle_gauss_certain(ctx, sf, None, case=rp["case"])
     elif kind in ORACLES:
         run_oracle_case(ctx, sf, kind, rp["case"])
 
